@@ -702,6 +702,17 @@ def _clamp_table(prog: Program, res: Result):
                         res.violation("R01.5", "brentq-args", prog.loc(fi, e.node), fi.qualname, "brentq is not called with the tested objective and the caller's tolerances")
     res.count("clamp_rows", n)
     res.floor("clamp_rows", 4)
+    # size() leaves the object at the solver's value on every returning path
+    from ..paths import describe_trail as _dt
+
+    sfi, pubs = c02.size_publications(prog)
+    for f, v, node, kind in pubs:
+        ok = kind in ("solver", "min-met")
+        res.ob("R01.5", "size(): the height the object is left at is the solver's value" if kind == "solver" else f"size(): a path leaves the height at {vkey(v)[:50]} ({kind})", ok, prog.loc(sfi, node))
+        if not ok:
+            res.violation("R01.5", f"size-unsolved|{vkey(v)[:50]}", prog.loc(sfi, node), sfi.qualname,
+                          f"size() can return with the height left at {vkey(v)[:80]} without that being the solver's value, and without having established that the excess there is <= 0: "
+                          "the returned design can exceed the temperature limits by more than the sizing tolerance", path=_dt(f)[-6:])
     fi = prog.func(f"{c02.UT}.solve_root")
     lower, upper = Rat.atom("lower"), Rat.atom("upper")
     # the objective is evaluated at the two bounds
@@ -714,6 +725,12 @@ def _clamp_table(prog: Program, res: Result):
 
 
 VARIANTS = [
+    Variant("size() returns early at min_height when the excess there is within 0.01 K (seeded C01_f)", "break",
+            [(GHX, "        # Make the initial guess variable the average of the heights given\n        self.bhe.b.H = (self.sim_params.max_height", "        if local_objective(self.sim_params.min_height) <= 1.0e-2:\n            return\n\n        # Make the initial guess variable the average of the heights given\n        self.bhe.b.H = (self.sim_params.max_height")], "R01.5"),
+    Variant("size() returns early at min_height when the limits are already met there", "benign",
+            [(GHX, "        # Make the initial guess variable the average of the heights given\n        self.bhe.b.H = (self.sim_params.max_height", "        if local_objective(self.sim_params.min_height) <= 0.0:\n            return\n\n        # Make the initial guess variable the average of the heights given\n        self.bhe.b.H = (self.sim_params.max_height")]),
+    Variant("size() returns early at max_height when the limits are met there", "break",
+            [(GHX, "        # Make the initial guess variable the average of the heights given\n        self.bhe.b.H = (self.sim_params.max_height", "        if local_objective(self.sim_params.max_height) <= 0.0:\n            return\n\n        # Make the initial guess variable the average of the heights given\n        self.bhe.b.H = (self.sim_params.max_height")], "R01.5"),
     Variant("tail filter 'val < 0' flipped", "break",
             [(SR, "        for _, val in zip(sorted_num_bh, sorted_values):\n            if val < 0:", "        for _, val in zip(sorted_num_bh, sorted_values):\n            if val > 0:")], "R01.1"),
     Variant("negative_excess_values keeps the positive ones", "break",
